@@ -15,4 +15,4 @@ RULE = (
 )
 ASSUMPTIONS = ["order inside lookup lists is unconstrained (get_track_neighbors sorts the cache in place)"]
 REQUIRED_CLASSES = {t: ["query_on_changed_track"] for t in ("quick", "thorough")}
-run_shard, replay, minimise = make(C06Oracle, quick=(320, 30), thorough=(4800, 50), profile="structure")
+run_shard, replay, minimise = make(C06Oracle, quick=(1600, 30), thorough=(4800, 50), profile="structure")
